@@ -364,29 +364,31 @@ def run(ctx):
         chosen = (chosen + rest)[:max(per, len(bykind))] if not q else (chosen + rest)[:max(per, min(len(bykind), 40))]
         events = [{"op": "base", "obj": base}]
         for kind, pth, fn, newv in chosen:
-            out, o2 = fmt.load(data)
-            w = kind.startswith("payload.") and "Sampler" not in json.dumps(pth) and not name.startswith("sampler")
-            edited, ych = {"kind": "none"}, []
-            try:
-                ncopy[0] += 1
-                if ncopy[0] % 3 == 0:       # the edit is made on a copy.deepcopy of the loaded object (a template copied per variation)
-                    import copy as _copy
-                    o2 = _copy.deepcopy(o2)
-                fn(o2)
-                if w:
-                    edited = projection.project_any(o2, spec, False)
-                y = o2.read()
-                if w:
-                    ych = fmt.tlv.to_json_nested(y)
-                out, o3 = fmt.load(y)
-            except Exception as e:
-                out, o3 = "edit-raised:" + type(e).__name__, None
-            w = w and out == "ok" and not _has_sampler(edited)
-            events.append({"op": "edit", "kind": kind, "path": pth, "value": newv, "outcome": out, "w": w, "edited": edited if w else {"kind": "none"},
-                           "chunks": ych if w else [],
-                           "after": projection.project_any(o3, spec, True) if o3 is not None else {"kind": "none"}})
-            kinds[kind] = kinds.get(kind, 0) + 1
-            ctx.count_case((name, json.dumps(pth), json.dumps(newv)))
+            ncopy[0] += 1
+            # every third edit is made a second time on a copy.deepcopy of the loaded object (a template copied per variation)
+            for on_copy in ((False, True) if ncopy[0] % 3 == 0 else (False,)):
+                out, o2 = fmt.load(data)
+                w = kind.startswith("payload.") and "Sampler" not in json.dumps(pth) and not name.startswith("sampler")
+                edited, ych = {"kind": "none"}, []
+                try:
+                    if on_copy:
+                        import copy as _copy
+                        o2 = _copy.deepcopy(o2)
+                    fn(o2)
+                    if w:
+                        edited = projection.project_any(o2, spec, False)
+                    y = o2.read()
+                    if w:
+                        ych = fmt.tlv.to_json_nested(y)
+                    out, o3 = fmt.load(y)
+                except Exception as e:
+                    out, o3 = "edit-raised:" + type(e).__name__, None
+                w = w and out == "ok" and not _has_sampler(edited)
+                events.append({"op": "edit", "kind": kind, "path": pth, "value": newv, "outcome": out, "w": w, "edited": edited if w else {"kind": "none"},
+                               "chunks": ych if w else [],
+                               "after": projection.project_any(o3, spec, True) if o3 is not None else {"kind": "none"}})
+                kinds[kind] = kinds.get(kind, 0) + 1
+                ctx.count_case((name, json.dumps(pth), json.dumps(newv), on_copy))
         traces.append({"id": name, "events": events})
     # second public names: a loaded MetaModule's u_<label> aliases (an UNLABELLED user-defined controller sits in front of the
     # labelled ones) edit the controller that carries the label - the saved state equals the one after the edit by number
